@@ -70,4 +70,11 @@ CHECKS = {
         "level_note": "default delivery schedule under each fault; n=3 (thorough: 4); deadlines are virtual",
         "budget_s": {"quick": 170, "thorough": 900},
     },
+    "C12": {
+        "pkg": "checks/c12", "level": "model_checking", "engine": "E1 bubble-net",
+        "technique": "bounded-exhaustive exploration of operation histories (all sequences up to depth d over a 14-operation alphabet) on persistent real Schemes in a synctest bubble, with reflection-based residue oracle after every operation",
+        "level_text": "every history of successful / failed / timed-out / concurrent KeyGen and Sign operations with late, duplicated and foreign traffic up to depth 3 (thorough 4), loud and silent; residue, admission, non-interference and filtering oracles after every operation",
+        "level_note": "default delivery schedule inside each operation; the lock-level window between a result being sent and the tables being cleaned is not explored here (event level waits for quiescence)",
+        "budget_s": {"quick": 170, "thorough": 900},
+    },
 }
